@@ -41,6 +41,11 @@ class FunctionInfo:
     def lineno(self) -> int:
         return self.node.lineno
 
+    def pos_params(self) -> list[str]:
+        """positional(-or-keyword) parameters only: what a positional call binds"""
+        a = self.node.args
+        return [x.arg for x in a.posonlyargs + a.args]
+
     def params(self) -> list[str]:
         a = self.node.args
         names = [x.arg for x in a.posonlyargs + a.args]
@@ -204,6 +209,117 @@ class Repo:
             self._index_module(mi)
         for ci in self.classes.values():
             self._resolve_bases(ci)
+        self.merged_forwarders: list[tuple[str, str]] = []
+        self._merge_forwarders()
+
+    # A function whose whole body is `return <private helper>(<its own parameters>)` and
+    # whose helper is used nowhere else is the SAME function written in two pieces (the
+    # usual "public wrapper + _impl" refactor).  The two are merged before any rule looks:
+    # the wrapper keeps its name, signature and decorators and gets the helper's body; the
+    # helper's closures move with it.  Every rule -- term evaluation, CFG, syntax -- then
+    # sees what it would have seen before the split.
+    def _merge_forwarders(self) -> None:
+        import copy
+        # where every private identifier is defined / used: name -> [(class node | None, kind)]
+        occ: dict[str, list] = {}
+
+        def scan(node, scope):
+            for ch in ast.iter_child_nodes(node):
+                if isinstance(ch, ast.ClassDef):
+                    scan(ch, ch)
+                    continue
+                if isinstance(ch, (ast.FunctionDef, ast.AsyncFunctionDef)) and ch.name.startswith("_"):
+                    occ.setdefault(ch.name, []).append((scope, "def"))
+                elif isinstance(ch, ast.Attribute) and ch.attr.startswith("_"):
+                    occ.setdefault(ch.attr, []).append((scope, "use"))
+                elif isinstance(ch, ast.Name) and ch.id.startswith("_"):
+                    occ.setdefault(ch.id, []).append((scope, "use"))
+                elif isinstance(ch, ast.alias) and ch.name.startswith("_"):
+                    occ.setdefault(ch.name, []).append(("import", "import"))
+                scan(ch, scope)
+        for mi in self.modules.values():
+            scan(mi.tree, mi)          # scope: the class node, else the module
+
+        def used_once(name, impl):
+            scope = impl.cls.node if impl.cls is not None else impl.module
+            mine = [k for s_, k in occ.get(name, []) if s_ is scope]
+            if sorted(mine) != ["def", "use"]:
+                return False
+            # the same private name elsewhere must be the other scope's own business
+            others = {}
+            for s_, k in occ.get(name, []):
+                if s_ is not scope:
+                    others.setdefault(id(s_) if not isinstance(s_, str) else s_, []).append(k)
+            return "import" not in others and all("def" in ks for ks in others.values())
+        for key, w in list(self.functions.items()):
+            if w.parent is not None or not isinstance(w.node, ast.FunctionDef) or "#" in key:
+                continue
+            body = list(w.node.body)
+            if body and isinstance(body[0], ast.Expr) and isinstance(
+                    getattr(body[0], "value", None), ast.Constant) and isinstance(
+                    body[0].value.value, str):
+                doc, body = body[:1], body[1:]
+            else:
+                doc = []
+            if len(body) != 1 or not isinstance(body[0], (ast.Return, ast.Expr)) \
+                    or not isinstance(body[0].value, ast.Call):
+                continue
+            call = body[0].value
+            a = w.node.args
+            if a.vararg or a.kwarg or a.kwonlyargs or call.keywords:
+                continue
+            own = [x.arg for x in a.posonlyargs + a.args]
+            f = call.func
+            impl = None
+            if isinstance(f, ast.Attribute) and isinstance(f.value, ast.Name) and w.cls is not None \
+                    and own and f.value.id == own[0] and own[0] in ("self", "cls"):
+                cands = w.cls.methods.get(f.attr, [])
+                if len(cands) == 1 and cands[0].cls is w.cls:
+                    impl, passed, name = cands[0], own[1:], f.attr
+            elif isinstance(f, ast.Name) and w.cls is None:
+                cand = self.functions.get(f"{w.module.name}.{f.id}")
+                if cand is not None and cand.cls is None and cand.parent is None:
+                    impl, passed, name = cand, own, f.id
+            if impl is None or impl is w or not isinstance(impl.node, ast.FunctionDef) \
+                    or not name.startswith("_") or name.startswith("__"):
+                continue
+            if not all(isinstance(x, ast.Name) for x in call.args) \
+                    or [x.id for x in call.args] != passed:
+                continue
+            ia = impl.node.args
+            iown = [x.arg for x in ia.posonlyargs + ia.args]
+            if impl.cls is not None:
+                iown = iown[1:]
+            if iown != passed or ia.vararg or ia.kwarg or ia.kwonlyargs or impl.node.decorator_list:
+                continue
+            if isinstance(body[0], ast.Expr) and any(
+                    isinstance(x, ast.Return) and x.value is not None
+                    and not (isinstance(x.value, ast.Constant) and x.value.value is None)
+                    for x in ast.walk(impl.node)):
+                continue
+            # the helper is defined once and used once (by this wrapper)
+            if not used_once(name, impl):
+                continue
+            ibody = list(impl.node.body)
+            if ibody and isinstance(ibody[0], ast.Expr) and isinstance(
+                    getattr(ibody[0], "value", None), ast.Constant) and isinstance(
+                    ibody[0].value.value, str):
+                ibody = ibody[1:] or [ast.Pass()]
+            merged = copy.copy(w.node)
+            merged.body = doc + ibody
+            w.node = merged
+            ikey = next(k for k, v in self.functions.items() if v is impl)
+            del self.functions[ikey]
+            if impl.cls is not None:
+                impl.cls.methods.pop(name, None)
+            pre = impl.qualname + ".<locals>."
+            for k in [k for k in self.functions if k.startswith(pre)]:
+                fi = self.functions.pop(k)
+                fi.qualname = w.qualname + k[len(impl.qualname):]
+                if fi.parent is impl:
+                    fi.parent = w
+                self.functions[fi.qualname] = fi
+            self.merged_forwarders.append((w.qualname, impl.qualname))
 
     def _index_module(self, mi: ModuleInfo) -> None:
         is_pkg = mi.relpath.endswith("__init__.py")
